@@ -33,7 +33,8 @@ def property_fails_on(op, impl_line, healthy):
     if not bad:
         return None
     if all(v is not None and v >= want for v in bad.values()):
-        return (KEY_STALE, "lookupd views %s list objects nsqd no longer has (%s)" % (
+        return (KEY_STALE + ":" + ",".join(k for k in views if k in bad),
+                "lookupd views %s list objects nsqd no longer has (%s)" % (
             {k: sorted(v - want) for k, v in bad.items()}, impl_line))
     return ("registration-missing", "healthy lookupds do not list all of nsqd's objects: " + impl_line)
 
@@ -96,6 +97,9 @@ def judge_sync(ctx, res, label, corr_broken):
             continue
         o, i, m, hl = first
         pf = property_fails_on(o, i, hl)
+        hooks = [x[0].split()[1] for x in sc if x[0].startswith("hook ")]
+        if pf and hooks:
+            pf = (hooks[0], pf[1])  # the failure was produced by a verif hook that forces a named schedule
         replay = "script (op | impl | model):\n" + "\n".join("%s | %s | %s" % x for x in sc) + "\n"
         if pf:
             is_new = ctx.violation(pf[0], pf[1], replay)
